@@ -36,9 +36,12 @@ from vmon.oracles import c07_oracle as O
 PROP = "C07"
 RULE = ("cases = (a) clustered particle tables (1-400 rows, 1-4 groups by tomo_id/object_id/class, metric score/geom1, "
         "both directions, non-zero shifts, d on the cluster scale; chains, overlapping groups, shift-decisive, near-tie, "
-        "extreme d, odd labels, repeated scores, float32-collapsing metrics; subtomo_id unique / restarting per group / repeated) and (b) plateau-free score maps (blobs/noise, cubic and non-cubic, "
+        "extreme d, odd labels, repeated scores, float32-collapsing metrics, exact-position duplicates, block-boundary list and group "
+        "sizes (2**k-1, 2**k, 2**k+1, 400), adjacent labels / coordinates at 1e5, 2**24, 2**31, 2**53; subtomo_id unique / restarting per "
+        "group / repeated; three-step histories on one table modified in place) and (b) plateau-free score maps (blobs/noise, cubic and non-cubic, "
         "arrays and EM/MRC files, scores/sigma threshold incl. exactly 0 on mixed-sign maps, integer and generic diameters, numbering 0/1, "
-        "zxz/zzx lists of 1-70000 rows); "
+        "zxz/zzx lists of 1-70000 rows incl. 2**k +- 1 rows and unusual number texts; exact supra-threshold counts 2**k-1, 2**k, 2**k+1, "
+        "m*4096+1; three-step histories on caller-owned arrays modified in place); "
         "non-trivial = list with >= 1 conflicting pair inside a group, or map with >= 2 supra-threshold voxels of which "
         ">= 1 lies within the diameter of a better one; distinct by digest of sizes, parameters and leading values")
 ASSUMPTIONS = [
@@ -56,7 +59,11 @@ COLS = gens.COLS
 CLASSES = ["cbd_clusters", "sx_blobs", "sx_faces", "cbd_lower_geom1", "sx_noise_dense", "cbd_overlapping_groups", "cbd_chain",
            "sx_files", "cbd_shift_decisive", "sx_integer_diameter", "sx_noncubic", "cbd_extreme_d", "sx_negative", "cbd_near_tie",
            "cbd_small_n", "sx_sigma", "cbd_odd_labels", "sx_extreme_diameter", "sx_few_supra", "cbd_equal_scores_apart",
-           "sx_zero_threshold", "sx_big_angle_list", "cbd_float32_collapse"]
+           "sx_zero_threshold", "sx_big_angle_list", "cbd_float32_collapse", "sx_exact_supra_count", "cbd_representability",
+           "cbd_exact_duplicates", "cbd_block_sizes"]
+# block-boundary counts (off-by-one errors of batched / blocked rewrites only show there)
+BLOCK_COUNTS = sorted({2 ** k + e for k in range(6, 14) for e in (-1, 0, 1)})
+LIST_BLOCK_COUNTS = [32767, 32768, 32769, 65535, 65536, 65537]
 SX_COLS = ["x", "y", "z", "score", "phi", "theta", "psi"]
 ANGLE_TOL = 1e-9        # degrees: pandas' CSV float parser is not correctly rounded (1 ulp off on 17-digit decimals)
 
@@ -67,11 +74,11 @@ ENV = {"OMP_NUM_THREADS": "1", "OPENBLAS_NUM_THREADS": "1", "MKL_NUM_THREADS": "
 
 def plan(tier):
     if tier == "quick":
-        return dict(n_cases=460, shards=2, classes=CLASSES, timeout_s=600, env=ENV,
+        return dict(n_cases=540, shards=2, classes=CLASSES, timeout_s=600, env=ENV,
                     min_evals={"cbd_rows": 800, "cbd_separated": 800, "cbd_dominated": 800, "cbd_isolation": 1400,
                                "cbd_metamorphic": 300, "sx_threshold": 1200, "sx_score": 1200, "sx_angles": 1200,
                                "sx_separated": 1200, "sx_dominated": 1200, "sx_relational": 250})
-    return dict(n_cases=3680, shards=16, classes=CLASSES, timeout_s=3000, env=ENV,
+    return dict(n_cases=4320, shards=16, classes=CLASSES, timeout_s=3000, env=ENV,
                 min_evals={"cbd_rows": 8000, "cbd_separated": 8000, "cbd_dominated": 8000, "cbd_isolation": 12000,
                            "cbd_metamorphic": 2200, "sx_threshold": 8000, "sx_score": 8000, "sx_angles": 8000,
                            "sx_separated": 8000, "sx_dominated": 8000, "sx_relational": 1800})
@@ -345,6 +352,8 @@ def _build_cbd(rng, cls, big):
     n = int(rng.choice([2, 5, 12, 40, 120, 400])) if rng.random() < 0.4 else int(rng.integers(2, nmax + 1))
     if not big and n > 250 and rng.random() < 0.5:
         n = int(rng.integers(20, 250))
+    if rng.random() < 0.3:
+        n = int(rng.choice([63, 64, 65, 127, 128, 129, 255, 256, 257, 399, 400]))      # block-boundary list sizes, largest size
     ng = int(rng.integers(1, 5))
     feature = str(rng.choice(["tomo_id", "object_id", "class"]))
     metric = "score" if rng.random() < 0.6 else "geom1"
@@ -357,8 +366,22 @@ def _build_cbd(rng, cls, big):
     if cls == "cbd_small_n":
         n = int(rng.choice([1, 1, 2, 2, 3]))
         ng = int(rng.integers(1, 3))
-    if cls == "cbd_overlapping_groups":
+    if cls in ("cbd_overlapping_groups", "cbd_representability"):
         ng = int(rng.integers(2, 5))
+    sizes = None
+    if cls == "cbd_block_sizes":
+        # every GROUP has a block-boundary size (or the whole list has the largest size the quantifier allows)
+        if rng.random() < 0.25:
+            sizes = [int(rng.choice([399, 400]))]
+        else:
+            sizes = []
+            for _ in range(int(rng.integers(1, 5))):
+                cand = [v for v in (63, 64, 65, 127, 128, 129, 255, 256, 257) if sum(sizes) + v <= 400]
+                if cand:
+                    sizes.append(int(rng.choice(cand)))
+        n, ng = int(sum(sizes)), len(sizes)
+        sigma = float(rng.uniform(1.0, 4.0))
+        d = sigma * float(rng.uniform(0.8, 2.5))
     df = gens.motl_table(rng, n, tomos=int(rng.integers(1, 4)))
     df["score"] = _unique_metric(rng, n, 0.0, 1.0)
     df["geom1"] = _unique_metric(rng, n, -5.0, 5.0)
@@ -464,22 +487,77 @@ def _build_cbd(rng, cls, big):
         odd = np.array([0.0, -7.0, 1e6, 2.5, 3.0, 1e-3, -0.5, 65537.0, 12.0])
         pool = rng.choice(odd, ng, replace=False)
         lab = rng.choice(pool, n)
+    elif cls == "cbd_block_sizes":
+        lab = np.repeat(pool[:ng], sizes)[rng.permutation(n)]
+        info["group_sizes"] = sizes
+    elif cls == "cbd_representability":
+        # adjacent integer labels at representability boundaries (np.isclose / float32 / int32 would merge or wrap them),
+        # groups interleaved in space so that a merge of two groups changes the survivors
+        basel = float(rng.choice([100000.0, 100000.0, 100001.0, 2.0 ** 24 - 1, 2.0 ** 24, 2.0 ** 31 - 1, 2.0 ** 31, 2.0 ** 53]))
+        step = 2.0 if basel >= 2.0 ** 53 else 1.0
+        pool = basel + step * np.arange(ng)
+        if rng.random() < 0.3:
+            pool = -pool
+        nb = max(1, n // ng)
+        B = _cluster_positions(rng, nb, sigma)
+        lab = pool[np.arange(n) % ng]
+        P = B[rng.integers(0, nb, n)] + rng.uniform(-1, 1, (n, 3)) * 0.4 * d
+        info["label_base"] = basel
+    elif cls == "cbd_exact_duplicates":
+        pass                                   # positions are written below (dyadic values, exact sums)
     elif cls == "cbd_float32_collapse":
         # metrics distinct in float64 but equal (or mis-ordered) once rounded to float32; rank order != row order
         metric = str(rng.choice(["score", "geom1", "subtomo_id", "geom3", "geom4"]))
-        fmode = str(rng.choice(["close_floats", "big_integers"])) if metric != "subtomo_id" else "big_integers"
+        fmode = str(rng.choice(["close_floats", "big_integers", "float32_extremes"])) if metric != "subtomo_id" else "big_integers"
         rank = rng.permutation(n).astype(np.float64)
         if fmode == "close_floats":
             v0 = float(rng.choice([1.0, -1.0])) * float(10 ** rng.uniform(-1, 3))
             df[metric] = v0 * (1.0 + rank * float(10 ** rng.uniform(-9, -7.3)))
+        elif fmode == "float32_extremes":
+            # float32 max and the values just below it, float32 subnormals, their negatives: all distinct
+            f32 = np.float32(3.4028234663852886e38)
+            tops = [float(f32)]
+            for _ in range(3):
+                f32 = np.nextafter(f32, np.float32(0))
+                tops.append(float(f32))
+            vals = tops + [-v for v in tops] + [float(j) * 2.0 ** -149 for j in range(1, n + 1)] + [-float(j) * 2.0 ** -149 for j in range(1, 6)]
+            df[metric] = np.array(vals)[rng.permutation(len(vals))[:n]]
         else:
             basev = float(rng.choice([2 ** 24, 2 ** 25 + 1, 2 ** 26 - 200, 3 * 2 ** 24, 2 ** 30])) * (1.0 if metric == "subtomo_id" else float(rng.choice([1.0, -1.0])))
             df[metric] = basev + rank * float(rng.choice([1, 1, 2]))
         d = sigma * float(rng.uniform(1.0, 3.0))
         info["float32_mode"] = fmode
+    if cls == "cbd_exact_duplicates":
+        # several particles at EXACTLY the same complete position (same group and other groups) with different scores:
+        # bit-identical x/shift, or another split of the same dyadic sum
+        nsite = max(1, n // int(rng.integers(2, 6)))
+        site_p = np.round(_cluster_positions(rng, nsite, sigma) * 8) / 8
+        site_s = np.round(rng.uniform(-3, 3, (nsite, 3)) * 8) / 8
+        src = rng.integers(0, nsite, n)
+        sh = site_s[src].copy()
+        alt = rng.random(n) < 0.3
+        sh[alt] += np.round(rng.uniform(-4, 4, (int(alt.sum()), 3)) * 4) / 4
+        xyz = site_p[src] - sh
+        df["x"], df["y"], df["z"] = xyz[:, 0], xyz[:, 1], xyz[:, 2]
+        df["shift_x"], df["shift_y"], df["shift_z"] = sh[:, 0], sh[:, 1], sh[:, 2]
+        if rng.random() < 0.5:                 # rows identical in every field but metric / tag / id
+            for ccol in COLS:
+                if ccol not in ("x", "y", "z", "shift_x", "shift_y", "shift_z", "score", "geom1", "subtomo_id", feature):
+                    df[ccol] = df[ccol].to_numpy()[0]
+        info["sites"] = int(nsite)
+        P = None
     if P is not None:
         _split_positions(rng, df, P, shift_scale=float(rng.choice([0.5, 3.0, 10.0])))
+    if cls == "cbd_representability" or (cls in ("cbd_clusters", "cbd_chain", "cbd_block_sizes") and rng.random() < 0.2):
+        # coordinates just above 1e5 / 2**24 (a float32 or %g detour of the coordinates would merge neighbours)
+        if rng.random() < 0.6:
+            off = np.array([float(rng.choice([1e5, 2.0 ** 24, -2.0 ** 24, 1e5 + 0.5])) for _ in range(3)]) * (rng.random(3) < 0.7)
+            for k, ccol in enumerate(("x", "y", "z")):
+                df[ccol] = df[ccol].to_numpy(dtype=float) + off[k]
+            info["coordinate_offset"] = off.tolist()
     df[feature] = lab
+    if cls == "cbd_representability" and np.all(np.abs(lab) < 2.0 ** 62) and rng.random() < 0.5:
+        df[feature] = df[feature].astype(np.int64)
     if cls == "cbd_extreme_d":
         Pc = gens.positions(df)
         D = O.dist_matrix(Pc)
@@ -665,8 +743,26 @@ def _big_list(ctx):
 
 def _gen_sx(ctx, rng, cls, big):
     shape = _dims(rng, cls, big)
+    n_exact = None
+    if cls == "sx_exact_supra_count":
+        # an EXACT number of supra-threshold voxels: 2**k-1, 2**k, 2**k+1 (k = 6..13) and m*4096+1, in a dense region
+        hi = 40 if big else 24
+        m4096 = [m * 4096 + 1 for m in range(1, 16) if m * 4096 + 1 < hi ** 3 - 8]
+        n_exact = int(rng.choice(m4096)) if rng.random() < 0.45 else int(rng.choice([v for v in BLOCK_COUNTS if v < hi ** 3 - 8]))
+        target = min(hi ** 3, max(n_exact + 8, int(n_exact / rng.uniform(0.3, 0.97))))
+        side = min(hi, int(np.ceil(target ** (1.0 / 3.0))))
+        shape = (side, side, side)
+        if rng.random() < 0.5:
+            a = int(min(hi, side + rng.integers(0, 5)))
+            b = int(max(2, min(hi, side - rng.integers(0, 3))))
+            cdim = int(min(hi, max(2, np.ceil((n_exact + 8) / (a * b)))))
+            cdim = int(min(hi, max(cdim, side - 2)))
+            if a * b * cdim >= n_exact + 8:
+                shape = tuple(int(v) for v in rng.permutation([a, b, cdim]))
+        while int(np.prod(shape)) < n_exact + 8:
+            shape = tuple(min(hi, v + 1) for v in shape)
     nvox = int(np.prod(shape))
-    kind = "noise" if cls in ("sx_noise_dense", "sx_few_supra") else ("faces" if cls == "sx_faces" else str(rng.choice(["blobs", "blobs", "noise"])))
+    kind = "noise" if cls in ("sx_noise_dense", "sx_few_supra", "sx_exact_supra_count") else ("faces" if cls == "sx_faces" else str(rng.choice(["blobs", "blobs", "noise"])))
     f = _field(rng, shape, kind)
     if cls == "sx_zero_threshold":
         # mixed-sign scores, the requested threshold is exactly 0 (int) or 0.0: kk voxels are positive
@@ -685,8 +781,14 @@ def _gen_sx(ctx, rng, cls, big):
     dia = _generic_diameter(rng, 1.1, 9.0)
     thr_kind = "scores"
     sigma = None
-    if cls == "sx_noise_dense":
+    if cls == "sx_exact_supra_count":
+        k = n_exact
+        dia = _generic_diameter(rng, 1.2, 3.6) if rng.random() < 0.7 else float(rng.choice([2, 3]))
+    elif cls == "sx_noise_dense":
         k = int(min(cap, nvox * rng.uniform(0.3, 1.0)))
+        okc = [v for v in BLOCK_COUNTS + [4097, 8193, 12289] if nvox * 0.25 <= v <= min(cap + 8000, nvox - 1)]
+        if okc and rng.random() < 0.4:
+            k = int(rng.choice(okc))
         dia = _generic_diameter(rng, 1.1, 4.0)
     elif cls == "sx_few_supra":
         k = int(rng.choice([0, 0, 1, 1, 2, 2, 3]))
@@ -694,6 +796,9 @@ def _gen_sx(ctx, rng, cls, big):
         mode = str(rng.choice(["below_one", "exactly_one", "beyond_box"]))
         dia = {"below_one": float(rng.uniform(0.05, 0.99)), "exactly_one": 1.0, "beyond_box": float(np.linalg.norm(shape) + rng.uniform(0.5, 30))}[mode]
         k = int(min(600 if mode != "beyond_box" else cap, max(2, nvox * rng.uniform(0.01, 0.3))))
+        okc = [v for v in (63, 64, 65, 127, 128, 129, 255, 256, 257, 511, 512, 513) if v < nvox]
+        if mode == "below_one" and okc and rng.random() < 0.6:
+            k = int(rng.choice(okc))          # every supra-threshold voxel is a peak: block-boundary NUMBER OF PEAKS
     else:
         k = int(min(cap, max(2, nvox * 10 ** rng.uniform(-2.3, -0.2))))
     if cls == "sx_integer_diameter":
@@ -705,7 +810,7 @@ def _gen_sx(ctx, rng, cls, big):
         thr = float(srt[-1] + abs(srt[-1]) * 0.01 + 0.01) if rng.random() < 0.5 else float(srt[-1])
     elif k == nvox:
         thr = float(srt[0] - 1.0)
-    elif rng.random() < 0.2:
+    elif cls != "sx_exact_supra_count" and rng.random() < 0.2:
         thr = float(srt[-k - 1])              # threshold EQUAL to a voxel's score: that voxel does not exceed it
     else:
         thr = float((srt[-k - 1] + srt[-k]) / 2.0)
@@ -744,29 +849,43 @@ def _gen_sx(ctx, rng, cls, big):
     # angle list / angle map
     numbering = int(rng.integers(0, 2))
     nl = int(rng.choice([1, 2, 7, 60, 500])) if rng.random() < 0.5 else int(rng.integers(1, 400))
+    if rng.random() < 0.25:
+        nl = int(rng.choice([v for v in BLOCK_COUNTS if v <= 4097]))
     lmode = str(rng.choice(["continuous", "lattice", "integers"]))
+    tokens = None
+    if io["list"] == "csv" and cls != "sx_big_angle_list" and rng.random() < 0.4:
+        lmode = "odd_text"
     if lmode == "continuous":
         L = np.column_stack([rng.uniform(-180, 180, nl), rng.uniform(0, 180, nl), rng.uniform(-180, 180, nl)])
     elif lmode == "lattice":
         L = np.column_stack([rng.integers(0, 36, nl) * 10.0, rng.integers(0, 19, nl) * 10.0 + 0.5, rng.integers(0, 36, nl) * 10.0 + 0.25])
+    elif lmode == "odd_text":
+        # numbers whose text form is unusual; the file carries exactly these tokens, the list holds float(token)
+        pool_t = np.array([".5", "5.", "+3", "1E2", "3e-06", "1e+02", "-.25", "2.50", "1e0", "-0.0", "0", "180", "1.5e1", "+.125", "33.", "-7e-1"])
+        tokens = pool_t[rng.integers(0, len(pool_t), (nl, 3))]
+        L = np.array([[float(t) for t in row] for row in tokens], dtype=np.float64).reshape(nl, 3)
     else:
         L = np.column_stack([rng.integers(0, 360, nl), rng.integers(0, 181, nl), rng.integers(360, 720, nl)]).astype(float)
     if cls == "sx_big_angle_list":
         # 40000-70000 rows: angle-map entries beyond 32767 / 65535 and the last row are referenced by the best voxels
         nl = int(rng.integers(40000, 70001))
-        nl += 1 if nl in (32768, 65536) else 0
+        if rng.random() < 0.4:
+            nl = int(rng.choice(LIST_BLOCK_COUNTS))
         L, lmode = _big_list(ctx)[:nl], "big_cached_prefix"
     Aidx = rng.integers(0, nl, shape)
+    if rng.random() < 0.5:
+        Aidx.ravel()[int(np.argmax(S))] = nl - 1          # the best voxel (always a peak) points to the LAST list row
     if cls == "sx_big_angle_list":
         top = np.argsort(-S.ravel())[:6]
-        forced = [nl - 1, 32768, 32767, nl - 2, int(rng.integers(32769, nl)), 65535 if nl > 65536 else 39999]
+        forced = [nl - 1, 32768, 32767, nl - 2, int(rng.integers(min(32768, nl - 1), nl)), 65535 if nl > 65536 else 39999]
+        forced = [min(v, nl - 1) for v in forced]
         Aidx.ravel()[top[:min(len(top), 6)]] = forced[:min(len(top), 6)]
     adt = str(rng.choice(["int64", "int32", "float32", "float64"]))
     Amap = (Aidx + numbering).astype(adt)
     order = "zzx" if rng.random() < (0.5 if as_files else 0.2) else "zxz"
     c = {"kind": "sx", "S": S, "A": Amap, "L": L, "numbering": numbering, "order": order, "dia": dia, "thr_kind": thr_kind,
          "thr": thr, "sigma": sigma, "io": io, "tomo_id": int(rng.integers(1, 300)),
-         "object_id": None if rng.random() < 0.5 else int(rng.integers(1, 9)), "n_supra": int(k)}
+         "object_id": None if rng.random() < 0.5 else int(rng.integers(1, 9)), "n_supra": int(k), "L_tokens": tokens}
     # non-triviality: some supra-threshold voxel lies within the diameter of a better one
     sup = np.argwhere(S.astype(np.float64) > thr)
     supp = False
@@ -862,7 +981,7 @@ def _variant(rng, name, c, base_ids):
         else:
             # single group: add a foreign group on top of it
             extra = df.iloc[rng.integers(0, n, max(1, n // 2))].copy()
-            extra[feature] = g + 1.0
+            extra[feature] = float(np.abs(lab).max() * 2 + 7)          # (g + 1 would equal g for labels >= 2**53)
             extra[TAG] = extra[TAG].to_numpy(dtype=float) + 1e6
             mv = extra[metric].to_numpy(dtype=float)
             span = np.abs(df[metric].to_numpy(dtype=float)).max() + 1
@@ -878,6 +997,35 @@ def _variant(rng, name, c, base_ids):
 VARIANTS = ["row_permutation", "rigid_motion", "relabel_groups", "negate_metric", "perturb_other_groups"]
 
 
+def _cbd_history(ctx, c, rng, base_ids):
+    """Three calls on ONE caller-owned table that is modified in place between the calls; every call is judged by the
+    call monitors against the values the table holds at that moment (and the first one against the plain run)."""
+    cm = ctx.cm
+    tab = c["df"].copy(deep=True)                     # the caller's table; Motl(tab) keeps a reference to it
+    kw = dict(metric_id=c["metric"], keep_greater=c["kg"])
+    m1 = cm.Motl(tab)
+    ok, _ = ctx.call("clean_by_distance[history-1]", m1.clean_by_distance, c["d"], c["feature"], **kw)
+    if ok:
+        got = _survivor_ids(m1)
+        ctx.check("cbd_metamorphic", got == base_ids, None if got == base_ids else {
+            "variant": "history-1 (same table again)", "n_expected": len(base_ids), "n_got": len(got)})
+    # in place: the metric values change hands (a permutation keeps them distinct)
+    mv = tab[c["metric"]].to_numpy().copy()
+    tab.loc[:, c["metric"]] = mv[rng.permutation(len(mv))]
+    if _in_domain(tab, c):
+        ctx.call("clean_by_distance[history-2]", cm.Motl(tab).clean_by_distance, c["d"], c["feature"], **kw)
+    else:
+        ctx.ood("cbd_metamorphic")
+    # in place: half of the particles move away, one coordinate is mirrored
+    far = rng.random(len(tab)) < 0.5
+    tab.loc[:, "x"] = tab["x"].to_numpy(dtype=float) + np.where(far, 512.0, 0.0)
+    tab.loc[:, "shift_y"] = -tab["shift_y"].to_numpy(dtype=float)
+    if _in_domain(tab, c):
+        ctx.call("clean_by_distance[history-3]", cm.Motl(tab).clean_by_distance, c["d"], c["feature"], **kw)
+    else:
+        ctx.ood("cbd_metamorphic")
+
+
 def _run_cbd(ctx, c):
     cm = ctx.cm
     rng = ctx.rng(c["i"], 1)
@@ -887,6 +1035,8 @@ def _run_cbd(ctx, c):
         return
     base_ids = _survivor_ids(m)
     k0 = c["i"] // len(CLASSES)
+    if k0 % 3 == 1:
+        _cbd_history(ctx, c, rng, base_ids)
     names = [VARIANTS[k0 % 5], "perturb_other_groups" if (k0 % 5) != 4 else VARIANTS[(k0 // 5) % 4]]
     for name in names:
         vdf, kw, exp = _variant(rng, name, c, base_ids)
@@ -929,13 +1079,19 @@ def _write_inputs(ctx, c, tag, S, A, L, io, order):
         # a pool of two REUSED paths: consecutive cases of a shard, and the calls within one case, read different lists
         # (and different column orders) from the same file name
         p = os.path.join(ctx.scratch, "c07_anglist_p%d.csv" % ((c["i"] // 2) % 2))
-        _write_list_csv(p, L, order, c["i"] % 2 == 0)
+        _write_list_csv(p, L, order, c["i"] % 2 == 0, c.get("L_tokens") if L is c["L"] else None)
         out.append(p)
     return out
 
 
-def _write_list_csv(p, L, order, ints_plain):
+def _write_list_csv(p, L, order, ints_plain, tokens=None):
     cols = L[:, [0, 2, 1]] if order == "zzx" else L          # file columns: zxz -> phi,theta,psi ; zzx -> phi,psi,theta
+    if tokens is not None:
+        tk = tokens[:, [0, 2, 1]] if order == "zzx" else tokens
+        with open(p, "w") as f:
+            for r in tk:
+                f.write(",".join(str(t) for t in r) + "\n")
+        return
     with open(p, "w") as f:
         for r in cols:
             f.write(",".join(repr(int(v)) if (float(v).is_integer() and ints_plain) else repr(float(v)) for v in r) + "\n")
@@ -971,11 +1127,49 @@ def _run_sx(ctx, c):
         variants.append("arrays_instead_of_files")
     elif k0 % 3 == 0:
         variants.append("files_instead_of_arrays")
+    elif k0 % 3 == 1:
+        variants += ["history_1_same_objects", "history_2_after_inplace_scale_and_new_list", "history_3_after_inplace_flip"]
+    H = {}
     variants.append(["axes_permuted_flipped", "scores_times_two"][k0 % 2])
     for name in variants:
         kw2 = dict(kw)
         expect = T0
-        if name == "same_list_file_other_order":
+        if name.startswith("history_") and name != "history_1_same_objects" and "S" not in H:
+            ctx.ood("sx_relational")
+            continue
+        if name == "history_1_same_objects":
+            # caller-owned arrays, reused and modified IN PLACE by the next two steps
+            H.update(S=np.array(S), A=np.array(A), L=np.array(L, dtype=np.float64), kw=dict(kw), T=T0)
+            a2 = [H["S"], H["A"], H["L"]]
+        elif name == "history_2_after_inplace_scale_and_new_list":
+            H["S"] *= np.asarray(2, dtype=H["S"].dtype)
+            H["L"][:] = np.roll(H["L"], 1, axis=0) + np.array([0.5, 0.25, -0.5])
+            if not np.all(np.isfinite(H["S"])) or len(np.unique(H["S"])) != H["S"].size:
+                H.pop("S")
+                ctx.ood("sx_relational")
+                continue
+            if "scores_threshold" in H["kw"]:
+                H["kw"]["scores_threshold"] = H["kw"]["scores_threshold"] * 2
+            kw2 = dict(H["kw"])
+            a2 = [H["S"], H["A"], H["L"]]
+            if H["T"] is not None:
+                v = np.round(H["T"][:, :3]).astype(int) - 1
+                E = H["T"].copy()
+                E[:, 3] *= 2
+                E[:, 4:7] = H["L"][np.asarray(H["A"])[v[:, 0], v[:, 1], v[:, 2]].astype(np.int64) - c["numbering"]]
+                H["T"] = E
+            expect = H["T"]
+        elif name == "history_3_after_inplace_flip":
+            H["S"][:] = H["S"][::-1].copy()
+            H["A"][:] = H["A"][::-1].copy()
+            kw2 = dict(H["kw"])
+            a2 = [H["S"], H["A"], H["L"]]
+            if H["T"] is not None:
+                E = H["T"].copy()
+                E[:, 0] = H["S"].shape[0] + 1 - E[:, 0]
+                H["T"] = E[np.lexsort(E[:, :3].T[::-1])]
+            expect = H["T"]
+        elif name == "same_list_file_other_order":
             # the very same file, untouched, read with the other column order: theta and psi change places
             a2 = list(args)
             kw2["angles_order"] = "zzx" if kw["angles_order"] == "zxz" else "zxz"
@@ -1075,8 +1269,8 @@ def extra(ctx):
     count = 0
     for sites in itertools.combinations(range(nsites), npts):
         for perm in itertools.permutations(range(npts)):
-            for grp in itertools.product([1.0, 2.0], repeat=npts):
-                if grp[0] != 1.0:            # group names are interchangeable (relabelling is covered by cbd_metamorphic)
+            for grp in itertools.product([100000.0, 100001.0], repeat=npts):    # adjacent labels just above 1e5
+                if grp[0] != 100000.0:            # group names are interchangeable (relabelling is covered by cbd_metamorphic)
                     continue
                 for kg in (True, False):
                     for d in (1.5, 2.5):
